@@ -218,7 +218,14 @@ func ScanFooter(options *StoreOptions, fref *FileRef, fileName string,
 
 			err = json.Unmarshal(data[:content], f)
 			if err != nil {
-				return nil, err
+				// The framing of a footer that spans several pages can
+				// be intact while a page in between never reached the
+				// disk (a crash before the sync that follows the footer
+				// write): what is between is then not the JSON that was
+				// written.  Torn, so not a footer: keep scanning
+				// backwards for an older one.
+				pos -= int64(StorePageSize)
+				continue
 			}
 
 			f.initChildRefs()
